@@ -36,7 +36,7 @@ var opKinds = []string{
 	"timeout", "timeout", "timeout",
 	"fair", "fair",
 	"byzvote", "byzvote", "byzclaim", "byzprop", "split",
-	"dup", "drop", "drop", "crashrestart", "crash", "restart", "sync", "stalepolka", "lateproposal",
+	"dup", "drop", "drop", "crashrestart", "crash", "restart", "sync", "stalepolka", "lateproposal", "nilrounds",
 }
 
 func genCase(t *rapid.T) Case {
@@ -185,6 +185,9 @@ func runCase(c Case, x *h.Ctx) {
 	x.Labelf("validators:%d", nn)
 	x.Labelf("byz:%d", len(c.Byz))
 	x.Labelf("maxround:%d", min64(st.MaxRound, 4))
+	if st.NilRounds > 0 {
+		x.Label("undecided-rounds-in-prefix")
+	}
 	if st.StalePolkas > 0 {
 		x.Label("stale-polka-attack-in-prefix")
 	}
